@@ -288,7 +288,8 @@ def _process_properties(  # noqa: PLR0912, PLR0911
     unprocessed_props: list[tuple[str, oai.Reference | oai.Schema]] = (
         list(data.properties.items()) if data.properties else []
     )
-    for sub_prop in data.allOf:
+    all_of = list(data.allOf)
+    for sub_prop in all_of:  # Grows while iterating: an inline member may itself be composed with allOf
         if isinstance(sub_prop, oai.Reference):
             ref_path = parse_reference_path(sub_prop.ref)
             if isinstance(ref_path, ParseError):
@@ -312,6 +313,7 @@ def _process_properties(  # noqa: PLR0912, PLR0911
         else:
             unprocessed_props.extend(sub_prop.properties.items() if sub_prop.properties else [])
             required_set.update(sub_prop.required or [])
+            all_of.extend(sub_prop.allOf)
 
     for key, value in unprocessed_props:
         prop_required = key in required_set
